@@ -15,7 +15,7 @@ import traceback
 sys.path.insert(0, os.path.dirname(os.path.abspath(__file__)))
 from common import MachineryError, Report, VERIF, fresh, validate_trace, NCPU  # noqa: E402
 
-HARNESS_ONLY = ("call", "feat", "expect", "site", "note", "skip", "fname", "hashseed")
+HARNESS_ONLY = ("call", "feat", "expect", "site", "note", "skip", "fname", "hashseed", "_verdict")
 
 
 def run_generators(pid, tier, seed, nproc, hashseeds, extra_env=None):
@@ -65,6 +65,12 @@ def judge(report, module, events, chunk=60000, timeout=1500, relevant=None):
         report.add_tlc(res, f"trace validation {module} ({len(part)} events)")
         for e in part:
             cl = rejects.get(e["tid"])
+            if cl and "OUTSKIP" in cl and e.get("expect") != "reject":
+                k = "events_not_judged:result-outside-the-oracles-exact-domain"
+                report.extra[k] = report.extra.get(k, 0) + 1
+                e["_verdict"] = "skipped"
+                continue
+            e["_verdict"] = "rejected" if cl else "accepted"
             if cl and relevant is not None and e.get("expect") != "reject":
                 if "OUTDOM" in cl:
                     raise MachineryError(f"input outside the oracle's exact domain: {json.dumps(e)[:800]}")
@@ -125,18 +131,21 @@ def selftest_numeric(events, rng, ops=("parse", "prefix"), field="res", n=12):
 
 
 def standard_run(report, pid, module, tier, seed, selftests, extra_events=(), nproc=16, rule="", trivial=("plain",),
-                 relevant=None,
+                 relevant=None, extra_env=None,
                  sample_keys=("op", "sr", "G", "in", "s", "ctx", "res", "keys", "site", "tfm")):
     import random
     hashseeds = [0, 1, 2, 3] if tier == "quick" else list(range(32))
-    events = run_generators(pid, tier, seed, nproc, hashseeds)
+    events = run_generators(pid, tier, seed, nproc, hashseeds, extra_env=extra_env)
     events += list(extra_events)
     for e in events:
         report.case(e, trivial)
-    st = selftests(events, random.Random(seed))
+    judge(report, module, events, relevant=relevant)
+    # rejection self-tests are corruptions of lines the specification ACCEPTED (so that a corruption can never
+    # accidentally repair a rejected line); they are validated in a second pass
+    st = selftests([e for e in events if e.get("_verdict") == "accepted"], random.Random(seed))
     if not st:
         raise MachineryError("no rejection self-test could be built from this run's events")
-    judge(report, module, events + st, relevant=relevant)
+    judge(report, module, st, relevant=relevant)
     seen = set()
     for e in events:
         if e.get("site") not in seen and "exc" not in e:
